@@ -91,6 +91,22 @@ def changed_keys(ent_a, ent_b):
     return sorted(k for k in ALL_KEYS if ent_a.get(k) != ent_b.get(k))
 
 
+def derivative_files(entity_dicts, derivative, desc, tasks=None):
+    """what a search for the image / table files of one pipeline must give: the files under
+    derivatives/<derivative> that are not json side-cars, whose desc entity IS `desc` and whose
+    task entity is one of `tasks` (None: any) - as sorted relative paths, each once"""
+    out = []
+    for ent in entity_dicts:
+        if ent.get('derivative') != derivative or ent['ext'] == 'json':
+            continue
+        if ent.get('desc') != desc:
+            continue
+        if tasks is not None and ent.get('task') not in tasks:
+            continue
+        out.append(bids_relpath(ent))
+    return sorted(set(out))
+
+
 def subsets(items):
     """all subsets, by size (2^n)"""
     items = list(items)
